@@ -192,6 +192,33 @@ func genC14(r *Rng, tier string) *World {
 	} else {
 		in, _ = rec(root)
 	}
+	// list parameters spelled `key[]`: always a list, even with one (possibly blank) value
+	if !goStruct {
+		rr := root
+		if ptrRoot {
+			rr = root.Elem
+		}
+		for _, f := range rr.Fields {
+			if f.N.Kind != "slice" || !f.N.Elem.IsPrim() || !r.P(0.3) {
+				continue
+			}
+			if e, ok := f.Tag("json"); ok && e == "" {
+				continue
+			}
+			var keep []KV
+			for _, t := range f.Tags {
+				if t.K != "form" && t.K != "query" {
+					keep = append(keep, t)
+				}
+			}
+			f.Tags = append(keep, KV{"form", VS(f.Key + "[]")}, KV{"query", VS(f.Key + "[]")})
+			for i := range in.M {
+				if in.M[i].K == f.Key && in.M[i].V.K == "l" && len(in.M[i].V.L) == 1 && in.M[i].V.L[0].K == "s" && r.P(0.4) {
+					in.M[i].V = VL(VS(Pick(r, []string{"", " "})))
+				}
+			}
+		}
+	}
 	hasSlice := false
 	root.Walk(func(n *Node) {
 		if n.Kind == "slice" {
